@@ -1901,8 +1901,13 @@ pub mod gen {
         let ntransfers = rng.usize_in(1, 4);
         let mut ops = vec![];
         let mut maxlen = 1usize;
+        // a label "planted" while the previous transfer was in flight (see below): the next transfer carries it
+        let mut planted: Option<Lab> = None;
         for _ in 0..ntransfers {
-            let lab0 = label(rng, false);
+            let lab0 = match planted.take() {
+                Some(p) => p,
+                None => label(rng, false),
+            };
             // all label kinds: one transfer in ten passes the explicit re-use marker (resolved by the small complete
             // packet sent just before it, which carries the label)
             let explicit_reuse = lab0.is_addr() && rng.chance(1, 10);
@@ -1936,6 +1941,15 @@ pub mod gen {
             }
             let ptx = if target == "C18" && rng.chance(1, 6) { rng.below(0x700) as u16 } else { pt };
             ops.push(submit(len, seed, ptx, &lab, fid, b0, &[]));
+            // one transfer in eight: a small complete packet with an address label goes out between the first and the
+            // later packets of this transfer, and the next transfer carries that label - its first fragment is then
+            // written with the re-use label, which the receiver has to resolve to the label of that complete packet
+            // whatever the end packet of this transfer (which carries no label) was the end of
+            if rng.chance(1, 8) {
+                let pl = *rng.pick(&[L6A, L6B, L3A, L3B]);
+                ops.push(submit(rng.usize_in(0, 8), rng.next(), ptype(rng), &pl, fid.wrapping_add(1), 4097, &[]));
+                planted = Some(pl);
+            }
             // continuation schedule: enough calls to finish
             let mut est_rem = len as i64 - (b0 as i64 - 13).max(0);
             let mut guard = 0;
@@ -1958,7 +1972,7 @@ pub mod gen {
             for _ in 0..extra {
                 ops.push(cont(0, if rng.chance(1, 2) { 4097 } else { rng.usize_in(1000, 70_000) }));
             }
-            if rng.chance(1, 3) {
+            if planted.is_none() && rng.chance(1, 3) {
                 ops.push(Op::new("frame"));
             }
         }
